@@ -46,6 +46,13 @@ PROPS = {
                           thorough=dict(plain=4000000, asan=800000, tsan=800000)),
                 real=["tlx/counting_ptr.hpp (CountingPtr, ReferenceCounter, deleters)"],
                 stub=["std::atomic", "std::thread (scheduler shims over real ::std objects)"]),
+    "C06": dict(harness="c06_pmsort", concurrent=True,
+                runs=dict(quick=dict(plain=100000, asan=20000, tsan=20000),
+                          thorough=dict(plain=2000000, asan=400000, tsan=400000)),
+                real=["tlx/sort/parallel_mergesort.hpp", "tlx/algorithm/multiway_merge.hpp", "tlx/algorithm/multisequence_partition.hpp",
+                      "tlx/algorithm/multiway_merge_splitting.hpp", "tlx/thread_barrier_mutex.hpp", "tlx/container/loser_tree.hpp",
+                      "tlx/container/simple_vector.hpp"],
+                stub=["std::thread", "std::mutex", "std::condition_variable (scheduler shims over real ::std objects)"]),
 }
 
 SIM_NAMES = ["strategy", "param", "pct_k", "spurious_permille", "spurious_budget", "notify_choice",
